@@ -218,6 +218,10 @@ def gen(tier, rng):
                     slay, dlay = (TYPED_PAIRS if typed else DYN_PAIRS[:6])[k % (6 if typed else 6)]
                 g += 1
                 content = {"g": "rand", "seed": k, "flo": 0.0, "fhi": 1.0}
+                if op in ("mul", "div", "mul_inplace", "div_inplace") and k % 2:
+                    # runs of transparent black / saturated / opaque / transparent pixels (a shortcut for an all-zero or
+                    # all-opaque vector must still assign the destination)
+                    content = {"g": "data", "v": rz.runs_pixels(spt, w * h, random.Random(k))}
                 for rep, sent in enumerate((0x2222 + k, 0x5555 + 7 * k)):
                     chk = ["ret_ok", "outside", "srcsame"] + (["memo_exact"] if rep else [])
                     cases.append(rz.img_case(op, dpt, w, h, src_pt=spt, src_c=content, dst_c=content if op.endswith("_inplace") else None,
